@@ -8,6 +8,7 @@ open AbtemVerif AbtemVerif.Proto AbtemVerif.Distributions
    neg <values> <weights>                              -> ok <values> <weights>
    divide <values> <weights> <chunks nats>             -> ok <v;v;…> <w;w;…> | err <kind>
    outer <a> <b>                                       -> ok <rows>
+   outern <w;w;…>                                      -> ok <shape> <flat row-major weights>
 -/
 def handle : List String → String
   | ["uniform", lo, hi, n, e] =>
@@ -43,6 +44,10 @@ def handle : List String → String
     match parseList? parseRat? a, parseList? parseRat? b with
     | some a, some b => "ok " ++ showListList showRat (outer a b)
     | _, _ => "bad-op"
+  | ["outern", fs] =>
+    match parseListList? parseRat? fs with
+    | some fs => s!"ok {showList toString (weightsShape fs)} {showList showRat (outerFlat fs)}"
+    | none => "bad-op"
   | _ => "bad-op"
 
 def main : IO Unit := serve handle
